@@ -8,6 +8,7 @@ from multiprocessing import Pool
 from harness import core, absdoc as A, docgen, docrun, editrun as E
 from harness.props import _judges as J
 
+REAL = {}      # (doc, offset, range text) -> the real characters of a range that crosses virtual markers
 def spans_work(b):
     """implementation side: reader text + writer map, both views"""
     from docx import Document
@@ -46,6 +47,28 @@ def pick_ranges(rng, mspans, k):
         out.append((a, b, g[3][a - g[0]:b - g[0]]))
     return out
 
+def pick_marked_ranges(rng, mspans, k):
+    """ranges of ONE paragraph that start and end on real characters but may cross virtual markers (bold / italic markers
+    around the lines of a formatted run with line breaks) and real line breaks: (a, b, text of the range, its real characters)"""
+    out = []; off = 0; paras = {}
+    for txt, real, uid, pid in mspans:
+        if pid != -1: paras.setdefault(pid, []).append((off, txt, real))
+        off += len(txt)
+    cands = [v for v in paras.values() if sum(1 for o, t, r in v if r) >= 2 and any(not r and t for o, t, r in v)]
+    for _ in range(k):
+        if not cands: break
+        v = rng.choice(cands)
+        if any(v[i][0] + len(v[i][1]) != v[i + 1][0] for i in range(len(v) - 1)): continue      # not contiguous
+        chars = [(o + j, ch, r) for o, t, r in v for j, ch in enumerate(t)]
+        reals = [i for i, (o, ch, r) in enumerate(chars) if r]
+        if len(reals) < 2: continue
+        i = rng.choice(reals[:-1]); j = rng.choice([x for x in reals if x > i][:14])
+        seg = chars[i:j + 1]
+        if not any(not r for o, ch, r in seg): continue                                           # must cross a marker
+        if any(ch in '{}<>' for o, ch, r in seg if not r): continue                               # CriticMarkup wrappers / metadata: not here
+        out.append((seg[0][0], seg[-1][0] + 1, ''.join(ch for o, ch, r in seg), ''.join(ch for o, ch, r in seg if r)))
+    return out
+
 def run(tier, seed):
     ck = core.Check('C03', tier, seed)
     ck.proof_gate(['Props/C03.v'], extra_trusted=[
@@ -67,7 +90,7 @@ def run(tier, seed):
     cases = []; nspan_ok = 0
     for k, (d, b, din, (res, err)) in enumerate(zip(docs, blobs, dins, imp)):
         ck.count()
-        case = {'doc': {x: d[x] for x in ('stories', 'comments', 'next_uid', 'rpr_table')}}
+        case = {'doc': A.doc_core(d)}
         if err: ck.violation('oracle', case, 'projection raised ' + err); continue
         for view, clean in ((0, False), (1, True)):
             t, ft, sp = res[clean]
@@ -85,6 +108,8 @@ def run(tier, seed):
             if not clean:
                 for a, b2, txt in pick_ranges(rng, ms, 2 if tier == 'quick' else 6):
                     cases.append((d, [(txt, rng.choice(['', 'XY', txt.upper() + '!']), None, a)]))
+                for a, b2, txt, realtxt in pick_marked_ranges(rng, ms, 2 if tier == 'quick' else 6):
+                    cases.append((d, [(txt, rng.choice(['', 'XY']), None, a)])); REAL[(id(d), a, txt)] = realtxt
     # offset-addressed edits: implementation + model + oracles
     res = E.run_cases(cases)
     distinct = set(); inside = 0
@@ -112,8 +137,9 @@ def run(tier, seed):
                     s = 0
                     while s < min(len(x), len(y)) - p and x[-1 - s] == y[-1 - s]: s += 1
                     return x[p:len(x) - s], y[p:len(y) - s]
-                if (deleted, inserted) != (t, E.literal(new)) and trimmed(deleted, inserted) != trimmed(t, E.literal(new)):
-                    fail = 'range [%d,%d) = %r was addressed, but the session deleted %r and inserted %r' % (a, a + len(t), t, deleted, inserted)
+                t_real = REAL.get((id(c['d']), a, t), t)
+                if (deleted, inserted) != (t_real, E.literal(new)) and trimmed(deleted, inserted) != trimmed(t_real, E.literal(new)):
+                    fail = 'range [%d,%d) = %r (real characters %r) was addressed, but the session deleted %r and inserted %r' % (a, a + len(t), t, t_real, deleted, inserted)
                 elif E.oracle_C01(c): fail = 'characters outside the addressed range changed: ' + E.oracle_C01(c)[:300]
             f, kn = J.classify(c, fail)
         if f and kn: ck.known(kn[0], kn[1], case)
